@@ -322,9 +322,7 @@ Proof.
   intros H E. unfold broadcast_core in E.
   destruct (leqb (c_shape c) s); [inversion E; subst; auto|].
   destruct (is_nil s).
-  - destruct (is_nil (c_numer c ++ c_denom c)).
-    + destruct (c_size c =? 0)%Z; [discriminate|]. inversion E. apply collapse_wf; auto.
-    + destruct (c_size c =? 1)%Z; [|discriminate]. inversion E. apply collapse_wf; auto.
+  - destruct (c_size c =? 1)%Z; [|discriminate]. inversion E. apply collapse_wf; auto.
   - destruct (bshape (c_shape c) s) as [r|]; [|discriminate].
     destruct (leqb r s); [|discriminate]. inversion E. apply bcast_wf; auto.
 Qed.
@@ -340,10 +338,11 @@ Proof.
   destruct (is_nil s) eqn:E2.
   - apply is_nil_true in E2. subst s.
     assert (Hs : c_shape c <> []). { intro H0. rewrite H0 in E1. simpl in E1. discriminate. }
+    destruct (c_size c =? 1)%Z; [|discriminate].
     destruct (is_nil (c_numer c ++ c_denom c)) eqn:E3.
-    + destruct (c_size c =? 0)%Z; [discriminate|]. inversion E; subst. unfold is_float. simpl. rewrite E3. simpl.
+    + inversion E; subst. unfold is_float. simpl. rewrite E3. simpl.
       repeat split; auto. intros _. right. apply is_nil_true in E3. auto.
-    + destruct (c_size c =? 1)%Z; [|discriminate]. inversion E; subst. unfold is_float. simpl. rewrite E3. simpl.
+    + inversion E; subst. unfold is_float. simpl. rewrite E3. simpl.
       repeat split; auto. intro Hr. left. unfold cl_ro in Hro. rewrite Hr in Hro. simpl in Hro.
       apply andb_true_iff in Hro. destruct Hro as [Hv _]. apply negb_true_iff in Hv. rewrite Hv. reflexivity.
   - destruct (bshape (c_shape c) s) as [r|]; [|discriminate].
